@@ -18,7 +18,9 @@ from vlib import ToolError, q_to_fraction, run_harness_stable_day, tlc
 LEVEL = "model_checking"
 CFG = render.cfg_with()
 # P4 / P5 are read per language: a word group and an operator word of Turkish (a rule's patterns are tokenised in the rule's language)
-PATTERNS = {"P1": "zorp {NUMBER:n}", "P2": "blip {NUMBER:n}", "P3": "{TEXT:w} quux {NUMBER:n}", "P4": "her {GROUP:p:week_group} {NUMBER:n}", "P5": "{NUMBER:n} kere kere {NUMBER:m}"}
+# P6 has a literal word with a capital letter: the line written exactly like the pattern matches it
+PATTERNS = {"P1": "zorp {NUMBER:n}", "P2": "blip {NUMBER:n}", "P3": "{TEXT:w} quux {NUMBER:n}", "P4": "her {GROUP:p:week_group} {NUMBER:n}", "P5": "{NUMBER:n} kere kere {NUMBER:m}",
+            "P6": "Snarf {NUMBER:n} Wibble"}
 TR_RULES = [{"name": "t1", "pats": ["P4"], "beh": "double"}, {"name": "t2", "pats": ["P4", "P5"], "beh": "usd"}, {"name": "n1", "pats": ["P5"], "beh": "double"}]
 BEH = {"double": {"kind": "num_from", "field": "n", "mul": 2, "add": 0},
        "usd": {"kind": "money_from", "field": "n", "cur": "usd"},
@@ -46,6 +48,8 @@ def line_text(line):
             return "zorp " + num(line["n"])
         if line["pat"] == "P2":
             return "blip " + num(line["n"])
+        if line["pat"] == "P6":
+            return "Snarf %s Wibble" % num(line["n"])
         if line["pat"] == "P4":
             return "her hafta " + num(line["n"])
         if line["pat"] == "P5":
@@ -66,6 +70,9 @@ def step_of(h):
         return {"op": "add_rule", "lang": h["lang"], "name": r["name"], "patterns": [PATTERNS[p] for p in sorted(r["pats"])], "behaviour": BEH[r["beh"]]}
     if c == "delete_rule":
         return {"op": "delete_rule", "lang": h["lang"], "name": h["name"]}
+    if c == "set_date_rule":
+        import pipeline
+        return {"op": "set_date_rule", "lang": h["lang"], "patterns": pipeline.date_patterns(h["lang"])}
     if c == "add_type":
         return {"op": "add_type", "name": h["name"]}
     if c == "add_type_item":
@@ -128,7 +135,7 @@ def run(rep):
                 texts.add(line_text(h["line"]))
     if not {"baseline", "num", "money", "famq"} <= kinds:
         raise ToolError("vacuous generator: %s" % kinds)
-    base = baseline_slots(sorted(texts | set(BUILTIN_LINES) | {line_text({"form": "rule_line", "pat": p, "n": n, "w": ""}) for p in ("P4", "P5") for n in ([7, 1, 0], [5, 2, 0])}))
+    base = baseline_slots(sorted(texts | set(BUILTIN_LINES) | {line_text({"form": "rule_line", "pat": p, "n": n, "w": ""}) for p in ("P4", "P5", "P6") for n in ([7, 1, 0], [5, 2, 0])}))
     cases = [{"id": "h%d" % i, "cfg": CFG, "fresh": True, "steps": [step_of(h) for h in c["hist"]]} for i, c in enumerate(hists)]
     obs = run_harness_stable_day(cases, "c18.gen", jobs=8)
     for c, case, o in zip(hists, cases, obs):
@@ -233,9 +240,10 @@ def random_trace(rep, base, nhist):
              {"form": "fam_conv", "fam": "zorps", "q": [40, 1, 0], "a": 1, "b": 2}, {"form": "fam_conv", "fam": "zorps", "q": [3, 1, 0], "a": 3, "b": 1},
              {"form": "fam_conv", "fam": "zorps", "q": [40, 1, 0], "a": 1, "b": 3}, {"form": "fam_conv", "fam": "zorps", "q": [2, 1, 0], "a": 2, "b": 1}]
     lines += [{"form": "opaque", "id": i, "text": t} for i, t in enumerate(BUILTIN_LINES)]
+    lines += [{"form": "rule_line", "pat": "P6", "n": [7, 1, 0], "w": ""}, {"form": "rule_line", "pat": "P6", "n": [5, 2, 0], "w": ""}]
     lines += [{"form": "rule_line", "pat": "P4", "n": [7, 1, 0], "w": ""}, {"form": "rule_line", "pat": "P5", "n": [5, 2, 0], "w": ""}, {"form": "rule_line", "pat": "P4", "n": [5, 2, 0], "w": ""}]
     # a custom rule may carry the name of a built-in rule; deleting by a built-in rule's name deletes custom rules only
-    rules = RULES + [{"name": "convert_money", "pats": ["P2"], "beh": "double"}]
+    rules = RULES + [{"name": "convert_money", "pats": ["P2"], "beh": "double"}, {"name": "n6", "pats": ["P6"], "beh": "double"}, {"name": "n2", "pats": ["P6", "P1"], "beh": "usd"}]
     items = [{"idx": 1, "up": [1, 4, 0], "down": [1, 1, 0]}, {"idx": 2, "up": [1, 5, 0], "down": [4, 1, 0]}, {"idx": 3, "up": [1, 1, 0], "down": [5, 1, 0]},
              {"idx": 2, "up": [1, 2, 0], "down": [3, 1, 0]}]
     cases, metas = [], []
@@ -251,7 +259,9 @@ def random_trace(rep, base, nhist):
             elif x < 0.4:
                 hs.append({"call": "delete_rule", "lang": "tr" if rng.random() < 0.25 else "en",
                            "name": rng.choice(["n1", "n2", "n3", "n4", "n9", "t1", "t2", "convert_money", "small_date", "duration_parse", "number_of"])})
-            elif x < 0.45:
+            elif x < 0.43:
+                hs.append({"call": "set_date_rule", "lang": rng.choice(["en", "tr"])})
+            elif x < 0.47:
                 hs.append({"call": "add_type", "name": "zorps"})
             elif x < 0.55:
                 hs.append({"call": "add_type_item", "fam": rng.choice(["zorps", "zorps", "zorps", "blips"]), "item": rng.choice(items)})
@@ -276,6 +286,8 @@ def random_trace(rep, base, nhist):
                 e = {"ev": "delete_rule", "lang": h["lang"], "name": h["name"], "ret": ret}
             elif h["call"] == "add_type":
                 e = {"ev": "add_type", "name": h["name"], "ret": ret}
+            elif h["call"] == "set_date_rule":
+                e = {"ev": "set_date_rule", "lang": h["lang"]}
             elif h["call"] == "add_type_item":
                 e = {"ev": "add_type_item", "fam": h["fam"], "idx": h["item"]["idx"], "up": h["item"]["up"], "down": h["item"]["down"], "ret": ret}
             else:
